@@ -31,6 +31,7 @@ func Dump(v any, mask ...string) string {
 }
 
 var rtypeType = reflect.TypeOf((*reflect.Type)(nil)).Elem()
+var reflectValueType = reflect.TypeOf(reflect.Value{})
 
 func access(v reflect.Value) reflect.Value {
 	if v.CanInterface() {
@@ -64,6 +65,29 @@ func (d *Dumper) val(v reflect.Value) {
 			d.b.WriteString("type(" + av.Interface().(reflect.Type).String() + ")")
 			return
 		}
+	}
+	if v.Type() == reflectValueType {
+		// a reflect.Value held by the object graph (e.g. a constructor): its type and,
+		// for pointer-like kinds, the identity of what it refers to
+		av := access(v)
+		inner, ok := av.Interface().(reflect.Value)
+		if !ok || !inner.IsValid() {
+			d.b.WriteString("rv(invalid)")
+			return
+		}
+		d.b.WriteString("rv(" + inner.Type().String())
+		switch inner.Kind() {
+		case reflect.Func, reflect.Pointer, reflect.Map, reflect.Chan, reflect.Slice, reflect.UnsafePointer:
+			p := unsafe.Pointer(inner.Pointer())
+			n, seen := d.seen[p]
+			if !seen {
+				n = len(d.seen)
+				d.seen[p] = n
+			}
+			fmt.Fprintf(&d.b, "@#%d", n)
+		}
+		d.b.WriteString(")")
+		return
 	}
 	switch v.Kind() {
 	case reflect.Bool:
